@@ -574,6 +574,8 @@ pub fn run(ctx: Ctx, mode: Mode) -> i32 {
         check_spec(&ctx, mode, &g);
         return ctx.finish(json!({"states":1,"transitions":1,"traces_validated_against_impl":1,"samples":[case]}), &[], false);
     }
+    // ---- %expect / %expect-rr: one real compile-time build (own process) per case
+    let expect_cases = if mode == Mode::C03 { check_expect(&ctx) } else { 0 };
     let (bases, sizes, nbases) = spec_space(&ctx);
     let max_lines = 2;
     let stats = bases
@@ -622,6 +624,79 @@ pub fn run(ctx: Ctx, mode: Mode) -> i32 {
         "specifications": stats.specs,
         "accept_reduce_failures": stats.accept_reduce,
         "cells_by_resolution_kind": stats.kinds,
+        "compile_time_builds_for_expect": expect_cases,
     });
     ctx.finish(cov, &["precedence model = the generator's (level = index of the declaration line; production precedence = %prec token's, else last token's)", "item sets and edges of the StateGraph are taken as the automaton (their correctness is C01/C02/C16)"], true)
+}
+
+
+/// `CTParserBuilder::build()` must fail iff the numbers of shift/reduce and reduce/reduce
+/// conflicts differ from `%expect` / `%expect-rr` (default 0). Conflict counts come from the
+/// run-time table (whose lists are checked cell by cell above).
+fn check_expect(ctx: &Ctx) -> u64 {
+    let bodies = [
+        ("S: 'a' S | 'b';", "conflict-free"),
+        ("S: 'i' S | 'i' S 'e' S | 'x';", "dangling else"),
+        ("S: A | B; A: 'a'; B: 'a';", "reduce/reduce"),
+        ("S: S S | 'a' | A; A: 'a';", "both kinds"),
+        ("S: S '+' S | S '*' S | 'n';", "four shift/reduce"),
+    ];
+    let root = std::path::PathBuf::from(format!("/verif/target/c03-{}", std::process::id()));
+    std::fs::remove_dir_all(&root).ok();
+    let mut n = 0u64;
+    let mut work = vec![];
+    for (bi, (body, what)) in bodies.iter().enumerate() {
+        let text0 = format!("%start S\n%%\n{}\n", body);
+        let grm = cfgrammar::yacc::YaccGrammar::<u32>::new_with_storaget(vcore::real::YK, &text0).unwrap();
+        let (_, st) = lrtable::from_yacc(&grm, lrtable::Minimiser::Pager).unwrap();
+        let (sr, rr) = st.conflicts().map(|c| (c.sr_len(), c.rr_len())).unwrap_or((0, 0));
+        let mut vals_sr: Vec<Option<usize>> = vec![None, Some(0), Some(sr), Some(sr + 1)];
+        let mut vals_rr: Vec<Option<usize>> = vec![None, Some(0), Some(rr), Some(rr + 1)];
+        vals_sr.dedup();
+        vals_rr.dedup();
+        for e in &vals_sr {
+            for r in &vals_rr {
+                for eoc in [true, false] {
+                    work.push((bi, *body, *what, sr, rr, *e, *r, eoc));
+                }
+            }
+        }
+    }
+    use rayon::prelude::*;
+    let results: Vec<(usize, bool, bool, String)> = work
+        .par_iter()
+        .enumerate()
+        .map(|(k, (_, body, what, sr, rr, e, r, eoc))| {
+            let dir = root.join(format!("e{}", k));
+            std::fs::create_dir_all(&dir).unwrap();
+            let mut text = String::from("%grmtools{yacckind: Original(NoAction)}\n%start S\n");
+            if let Some(e) = e {
+                text.push_str(&format!("%expect {}\n", e));
+            }
+            if let Some(r) = r {
+                text.push_str(&format!("%expect-rr {}\n", r));
+            }
+            text.push_str(&format!("%%\n{}\n", body));
+            std::fs::write(dir.join("g.y"), &text).unwrap();
+            let c = json!({"dir": ".", "mode": "parser", "error_on_conflicts": eoc});
+            let out = std::process::Command::new(std::env::current_exe().unwrap()).arg("--vbuild").arg(c.to_string()).current_dir(&dir).env_remove("OUT_DIR").output().expect("vbuild");
+            let v: serde_json::Value = serde_json::from_str(String::from_utf8_lossy(&out.stdout).lines().last().unwrap_or("")).unwrap_or(json!({}));
+            let ok = v["parser"]["ok"].as_bool();
+            std::fs::remove_dir_all(&dir).ok();
+            let expected_ok = !*eoc || (*sr == e.unwrap_or(0) && *rr == r.unwrap_or(0));
+            let desc = format!("{} ({} shift/reduce, {} reduce/reduce), %expect {:?}, %expect-rr {:?}, error_on_conflicts {}", what, sr, rr, e, r, eoc);
+            (k, ok == Some(expected_ok), ok.is_some(), format!("{}: build {} but should {}\n{}", desc, if ok == Some(true) { "succeeds" } else { "fails" }, if expected_ok { "succeed" } else { "fail" }, text))
+        })
+        .collect();
+    for (_, good, ran, desc) in results {
+        n += 1;
+        if !ran {
+            machinery(&format!("vbuild did not answer: {}", desc));
+        }
+        if !good {
+            ctx.violation("expect", &desc, json!({"detail": desc}));
+        }
+    }
+    std::fs::remove_dir_all(&root).ok();
+    n
 }
